@@ -18,6 +18,13 @@ Clauses(ev) ==
       [] ev.e = "limit" -> IF ~ev.withinLimits THEN {}
                            ELSE V(ev.got = ev.given, "CreatedShapeReadsBackWhatWasGiven")
                                 \cup V(ev.reloaded /\ ev.r = ev.given, "ReadsBackAfterReload")
+      [] ev.e = "convert" ->
+            IF ev.mismatch THEN {"ConversionApplies"}
+            ELSE Tag(ConvertViol(ev.s, ev.t), "converted")
+                 \cup (IF ~ev.reloaded THEN {"ConvertedFileSavesAndReloads"}
+                       ELSE V(ev.rver = ev.target, "ReloadsInTargetVersion") \cup Tag(ConvertViol(ev.s, ev.r), "reloaded")
+                            \cup UNION {Tag(IF ev.r[k].hasSkinInst THEN PartitionViol(ev.r[k], ev.boneLimit) ELSE {}, "reloaded-partitions") : k \in 1..Len(ev.r)})
+                 \cup (IF ev.back THEN Tag(ConvertViol(ev.s, ev.b), "there-and-back") ELSE {})
       [] ev.e = "crash" -> {"NoCrash"}
       [] OTHER -> {}
 Init == l = 1
